@@ -201,6 +201,30 @@ func c13NearMisses() []c13Input {
 	return out
 }
 
+// c13ArgMatrix: every operand position of every builtin and indexing form x every kind of
+// expression (variables, literals, calls of all result shapes, groups, nested builtins, nil).
+func c13ArgMatrix() []c13Input {
+	pre := "func fv() {\n}\nfunc f2() (int, int) {\n\treturn 1, 2\n}\nfunc mk() []int {\n\treturn []int{1}\n}\nfunc mks() []string {\n\treturn []string{\"a\"}\n}\nfunc one() int {\n\treturn 1\n}\nfunc str() string {\n\treturn \"s\"\n}\nvi := 1\nvs := \"abc\"\nvb := true\nsi := []int{1, 2}\nss := []string{\"a\", \"b\"}\n"
+	positions := []string{
+		"t := len($X)", "t := copy($X, si)", "t := copy(si, $X)", "t := copy($X, $X)", "copy($X, ss)", "t := itoa($X)", "t := exists($X)", "t := read($X)", "write($X, vs)", "write(vs, $X)", "write(vs, vs, $X)",
+		"t := input($X)", "print($X)", "print($X, $X)", "panic($X)", "t := si[$X]", "t := $X[0]", "$X[0] = 1", "si[$X] = 1", "si[0] = $X", "ss[0] = $X", "t := vs[$X]", "t := vs[$X:]", "t := vs[:$X]", "t := vs[$X:$X]", "t := $X[1:2]",
+		"for i, v := range $X {\n}", "for i := range $X {\n}", "for $X {\n\tbreak\n}", "if $X {\n}", "switch $X {\ncase 1:\n}", "switch vi {\ncase $X:\n}", "t := []int{$X}", "t := []string{$X, $X}", "t := $X + $X", "t := $X == $X", "t := !$X", "t := -$X",
+		"t := one($X)", "@ls($X)", "t, u, w := @ls($X) | @cat($X)", "$X", "($X)", "t := ($X)", "var t []int = $X", "var t int = $X", "t, u := $X", "t, u := $X, $X", "vi = $X", "si = $X", "vi += $X", "$X++",
+	}
+	offers := []string{"vi", "vs", "vb", "si", "ss", "(si)", "(vs)", "1", "-1", "\"lit\"", "`raw`", "true", "nil", "[]int{1}", "[]int{}", "[]string{\"a\"}", "mk()", "mks()", "one()", "str()", "fv()", "f2()", "len(si)", "itoa(1)", "vs[0]", "vs[0:1]", "si[0]", "ss[1]", "copy(si, si)", "input()", "read(vs)", "exists(vs)", "@ls()", "!vb", "vi + 1", "vs + vs", "vi == 1", "mk()[0]", "undefined", "undefinedf()"}
+	out := []c13Input{}
+	for pi, p := range positions {
+		for oi, o := range offers {
+			body := strings.ReplaceAll(p, "$X", o)
+			out = append(out, c13Input{key: fmt.Sprintf("argmatrix/%d/%d/top", pi, oi), files: map[string]string{"main.tsh": pre + body + "\n"}})
+			if (pi+oi)%3 == 0 {
+				out = append(out, c13Input{key: fmt.Sprintf("argmatrix/%d/%d/func", pi, oi), files: map[string]string{"main.tsh": pre + "func ctx() {\n\tif vb {\n\t\t" + strings.ReplaceAll(body, "\n", "\n\t\t") + "\n\t}\n}\nctx()\n"}})
+			}
+		}
+	}
+	return out
+}
+
 func c13Configs() []c13Input {
 	out := []c13Input{}
 	ok := "func F() int {\n\treturn 1\n}\nprint(\"lib\")\n"
@@ -359,7 +383,7 @@ func c13StdGraphs() ([]c13Input, map[string]string) {
 }
 
 func checkC13(c *Check) {
-	c.Rule = "hostile inputs fed to the real Transpile in child worker processes (recover + death/hang detection + isolated confirmation): all single-token edits (delete, duplicate, swap, truncate, replace by 66 representative lexemes) of a corpus of valid programs (sampled in the quick tier), random double edits, random bytes / token-alphabet bytes / token soups, semantic near-misses (void and multi-value calls at every operand position, malformed headers and literals), control-flow/definition statements placed in all pairs of 14 enclosing contexts (open and already closed loops, switch cases, functions, branches), configurations (missing/empty/directory main file, broken imports, all 512 import graphs over three files incl. self- and mutual imports, all 16 graphs over two modules of the std directory in both import styles reached from the main file and from a local library, chains of 40 files); oracle = result-shape predicate (exactly one of script / error, non-empty error text, no panic, no worker death, return within the bound) for both targets. Non-trivial = every input; distinct = SHA-256 of the input files"
+	c.Rule = "hostile inputs fed to the real Transpile in child worker processes (recover + death/hang detection + isolated confirmation): all single-token edits (delete, duplicate, swap, truncate, replace by 66 representative lexemes) of a corpus of valid programs (sampled in the quick tier), random double edits, random bytes / token-alphabet bytes / token soups, semantic near-misses (void and multi-value calls at every operand position, malformed headers and literals), an argument matrix (52 operand positions of builtins, indexing forms and statements x 40 kinds of expression), the cells of C06's typing table and C07's scope table (every typed position x every kind of offered expression; every statement at every site), control-flow/definition statements placed in all pairs of 14 enclosing contexts (open and already closed loops, switch cases, functions, branches), configurations (missing/empty/directory main file, broken imports, all 512 import graphs over three files incl. self- and mutual imports, all 16 graphs over two modules of the std directory in both import styles reached from the main file and from a local library, chains of 40 files); oracle = result-shape predicate (exactly one of script / error, non-empty error text, no panic, no worker death, return within the bound) for both targets. Non-trivial = every input; distinct = SHA-256 of the input files"
 	c.Assumptions = []string{"termination bound: 20 s in a loaded worker, then 90 s alone in a fresh worker; a hit is reported only after the isolated confirmation (normal cost is milliseconds)", "worker stack limit 256 MiB so that unbounded recursion dies quickly"}
 	runProbes(c, bashProbeJudge)
 	r := rand.New(rand.NewSource(c.Seed*13000027 + 3))
@@ -369,6 +393,19 @@ func checkC13(c *Check) {
 	inputs = append(inputs, c13Configs()...)
 	inputs = append(inputs, c13NearMisses()...)
 	inputs = append(inputs, c13Placements()...)
+	inputs = append(inputs, c13ArgMatrix()...)
+	// the typing table of C06 and the scope table of C07 as hostile inputs: every typed position filled with
+	// every kind of expression, every statement at every site (here only the result shape is judged)
+	for i, cell := range c06Cells(c.Thorough()) {
+		if c.Thorough() || i%3 == int(c.Seed%3) {
+			inputs = append(inputs, c13Input{key: "typing-table/" + cell.key, files: map[string]string{"main.tsh": cell.src}})
+		}
+	}
+	for i, cell := range c07Cells(false) {
+		if cell.extra == nil && (c.Thorough() || i%4 == int(c.Seed%4)) {
+			inputs = append(inputs, c13Input{key: "scope-table/" + cell.key, files: map[string]string{"main.tsh": cell.src}})
+		}
+	}
 	stdIn, stdFiles := c13StdGraphs()
 	inputs = append(inputs, stdIn...)
 	if exe, err := os.Executable(); err == nil {
